@@ -225,3 +225,43 @@ Proof.
   intros n y p Hy. replace (n - (n - y))%nat with y by lia.
   replace (1 - (1 - p)) with p by ring. rewrite <- (pascal_step1 n y Hy). ring.
 Qed.
+
+(* ---------------------------------------------------------------- self-contained restatements *)
+
+(* the recurrence stated for an arbitrary sequence satisfying the update of the code *)
+Theorem binv_recurrence_seq : forall (n : nat) (p : R) (r : nat -> R), 0 < p < 1 ->
+  let q := 1 - p in let s := p / q in let a := (INR n + 1) * s in
+  r 0%nat = q ^ n ->
+  (forall x, r (S x) = r x * (a / INR (S x) - s)) ->
+  (forall x, (x <= n)%nat -> r x = C n x * p ^ x * q ^ (n - x)) /\
+  (forall x, (n < x)%nat -> r x = 0).
+Proof.
+  intros n p r Hp q s a H0 HS.
+  assert (E : forall x, r x = binv_r n p x).
+  { induction x as [|x IH]; [exact H0|]. rewrite HS, IH. reflexivity. }
+  split; intros x Hx; rewrite E.
+  - apply binv_recurrence; assumption.
+  - apply binv_recurrence_tail; assumption.
+Qed.
+
+Lemma binv_r_def : forall n p,
+  binv_r n p 0 = (1 - p) ^ n /\
+  forall x, binv_r n p (S x)
+            = binv_r n p x * ((INR n + 1) * (p / (1 - p)) / INR (S x) - p / (1 - p)).
+Proof. intros. split; reflexivity. Qed.
+
+Lemma psum_def : forall r, psum r 0 = 0 /\ forall x, psum r (S x) = psum r x + r x.
+Proof. intros. split; reflexivity. Qed.
+
+Lemma seq_loop_def : forall r u x,
+  seq_loop r 0 u x = None /\
+  forall f, seq_loop r (S f) u x
+            = if Rlt_dec (r x) u then seq_loop r f (u - r x) (S x) else Some x.
+Proof. intros. split; reflexivity. Qed.
+
+Lemma binv_loop_def : forall a s u r x,
+  binv_loop a s 0 u r x = None /\
+  forall f, binv_loop a s (S f) u r x
+            = if Rlt_dec r u then binv_loop a s f (u - r) (r * (a / INR (S x) - s)) (S x)
+              else Some x.
+Proof. intros. split; reflexivity. Qed.
